@@ -5,6 +5,9 @@
 (* `bad` lists the ids of held samples / loans whose bytes no longer equal  *)
 (* their canary (C02: must stay empty).  Choices the log does not fix       *)
 (* (nothing here: the served connection and the chunk are logged) and       *)
+(* The specification follows the documentation; the two known deviations of  *)
+(* the code are accepted as TAGGED alternatives (kd, see PubSub.tla          *)
+(* AllowKnown) and printed per explanation at the end of every run.          *)
 (* choices the property leaves open (which eligible connection is served,   *)
 (* which free chunk is handed out) are accepted whatever the code chose.    *)
 EXTENDS PubSub, TraceIO
@@ -51,7 +54,7 @@ Consume ==
     /\ LET e == Rec[l] IN
        CASE e.k = "reset" -> QosOK(QosOf(e)) /\ Reset(QosOf(e))
          [] e.k = "op"    -> Clean(e) /\ Op(e)
-         [] e.k = "end"   -> UNCHANGED vars
+         [] e.k = "end"   -> UNCHANGED vars /\ PrintT(<<"KD_PATH", l, kd>>)   \* one line per explanation of the run
          [] OTHER -> FALSE
 
 TraceNext == Consume
